@@ -54,6 +54,8 @@ def path_lines(t, p, args):
              p + vals + ["e1", "e2", "e3", "e4"], p + vals + ["boom"], p + ["--num=abc"], p + vals + ["-V"],
              # IO switches: what one run sets must not be there in the next
              p + vals + ["-q"], p + vals + ["-vvv"], p + vals + ["--ansi"], p + vals + ["-n"], p + vals + ["boom", "-vvv"]]
+    # what a handler does to the formatter of its run (a style added, a tag left open) must not reach the next run
+    lines += [p + vals + ["style", "--ansi"], p + vals + ["usezz", "--ansi"], p + vals + ["opentag", "--ansi"], p + vals + ["style"], p + vals + ["usezz"]]
     if own:
         lines.append(p + own + vals)              # the command's own option with a valid value
     # a help request for a line the strict parse refuses, and that line itself (seeded change C17-g)
